@@ -112,6 +112,7 @@ func init() {
 			return out
 		}, Budget: budget,
 		MustReach: []string{"commits"},
+		Extra:     liveConformance,
 		Assume:    []string{"'crash of all nodes now' is a byte copy of every storage directory taken while all goroutines are parked, reopened with the real openStorage (process-crash model: completed file operations survive)"}}
 	vkChecks["C06"] = func(args []string) int { return runSimCheck(c06, args) }
 }
